@@ -303,6 +303,44 @@ Definition off_spellings : list bytes :=
     s2b "off 2024-01-05"; s2b "off 2024-01-05" ++ [10%N]; s2b "off 2024-01-05" ++ [13%N; 10%N]; s2b "off garbage";
     s2b "off  2024-01-05"; s2b "off" ++ [0xC2%N; 0xA0%N]; [10%N; 10%N] ++ s2b "off" ++ [10%N; 10%N] ].
 
+(* ------------------------------------------------------ Config.UploadStartTime *)
+
+(* Config.UploadStartTime is the uploader's simulated "now" (which weeks it
+   considers finished).  It is NOT an input of the launch decision: the token's
+   age is time.Since(mtime), on the real clock that also stamped the mtime. *)
+Definition program_run_cfg (e : entry) (cfg_names_dir user_config_dir : bool) (marker : bytes) (upload_var : bool)
+           (c : cfg) (upload_start : option Z) (file : option bytes) (localdir_ok : bool)
+           (period now : Z) (tok : option Z) : result :=
+  program_run_file e cfg_names_dir user_config_dir marker upload_var c file localdir_ok period now tok.
+
+Definition spawned_cfg (fuel : nat) (e : entry) (cfg_names_dir user_config_dir : bool) (marker : bytes)
+           (upload_var : bool) (c : cfg) (upload_start : option Z) (file : option bytes) (localdir_ok : bool)
+           (period now : Z) (tok : option Z) : list proc :=
+  spawned_file fuel e cfg_names_dir user_config_dir marker upload_var c file localdir_ok period now tok.
+
+(* ------------------------------------------------------ histories of starts *)
+
+(* a history of starts, one after the other, at real times `fst`, each with its
+   own UploadStartTime `snd`: who acquires the token, and the token afterwards *)
+Fixpoint history_run (period : Z) (starts : list (Z * option Z)) (tok : option Z) : list bool * option Z :=
+  match starts with
+  | [] => ([], tok)
+  | (t, _) :: rest =>
+      let r := acquire_seq period t tok in
+      let h := history_run period rest (snd r) in
+      (fst r :: fst h, snd h)
+  end.
+
+(* the rate limit on an observed history: every acquisition is at least a
+   period after the previous one (`last`: the token's time before the history) *)
+Fixpoint history_spaced (period : Z) (last : option Z) (evs : list (Z * bool)) : bool :=
+  match evs with
+  | [] => true
+  | (t, true) :: rest =>
+      (match last with None => true | Some m => period <=? t - m end) && history_spaced period (Some t) rest
+  | (_, false) :: rest => history_spaced period last rest
+  end.
+
 Definition is_sidecar (p : proc) : bool := match p_kind p with KSidecar => true | _ => false end.
 
 (* ------------------------------------------------------ oracles *)
